@@ -9,6 +9,9 @@ MAXINT = (1 << 63) - 1
 
 def keyname(key):
     fam, tk, path = key
+    if len(tk) > 48:
+        import zlib
+        tk = 'T%08x' % zlib.crc32(tk.encode())
     s = '%s|%s|%s' % (fam, tk, pathstr(path))
     return s.replace(' ', '_')
 
@@ -33,6 +36,7 @@ class Heap:
         self.sorts = {}    # key -> leaf sort desc (lifted)
         self.touched = set()   # keys written explicitly or havocked since entry
         self.opaque = set()    # keys havocked by opaque calls (frame not checkable)
+        self.frames = {}       # key -> [(havocked array, array before, frontier)]: rows <= frontier equal
 
     def copy(self):
         h = Heap(self.types)
@@ -42,6 +46,7 @@ class Heap:
         h.sorts = self.sorts  # shared, append-only
         h.touched = set(self.touched)
         h.opaque = set(self.opaque)
+        h.frames = dict(self.frames)
         return h
 
     def const(self, tag, key):
@@ -126,8 +131,12 @@ class State:
         self.notes = []
         self.callcount = 0
         self.trace = []      # block indices
+        self.toptrace = []
         self.ghost = {}      # named ghost scalars (e.g. call log counters)
         self.names = {}      # source identifier -> ('reg'|'addr', register)
+        self.assumed_ids = set()
+        self.pathconds = []
+        self.stops = []
         self.sink = None
 
     def copy(self):
@@ -146,8 +155,12 @@ class State:
         s.notes = self.notes
         s.callcount = self.callcount
         s.trace = list(self.trace)
+        s.toptrace = list(self.toptrace)
         s.ghost = dict(self.ghost)
         s.names = dict(self.names)
+        s.assumed_ids = set(self.assumed_ids)
+        s.pathconds = list(self.pathconds)
+        s.stops = list(self.stops)
         s.sink = None
         return s
 
@@ -166,6 +179,10 @@ class State:
         if sink is not None and sink is not self:
             sink.assume(f)
             return
+        fid = f.get_id()
+        if fid in self.assumed_ids:
+            return
+        self.assumed_ids.add(fid)
         self.assumptions.append(f)
         self.cx.solver_add(f)
 
@@ -205,6 +222,8 @@ class State:
             self.slice_facts(val)
         elif k == 'struct':
             self.nested_facts(val)
+        elif k == 'array':
+            self.array_facts(val)
 
     def nested_facts(self, val):
         types = self.cx.types
@@ -214,6 +233,29 @@ class State:
                 self.slice_facts(val.sub(('.' + f['name'],), f['type']))
             elif k == 'struct':
                 self.nested_facts(val.sub(('.' + f['name'],), f['type']))
+            elif k == 'array':
+                self.array_facts(val.sub(('.' + f['name'],), f['type']))
+
+    def array_facts(self, val):
+        """element ranges of a fixed array of integers"""
+        types = self.cx.types
+        et = types.elem(val.t)
+        if types.kind(et) != 'int':
+            return
+        rng = types.int_range(et)
+        if rng is None:
+            return
+        n = types.desc(val.t)['len']
+        a = val.lv[('[]',)]
+        aid = ('arr', a.get_id(), n)
+        if aid in self.assumed_ids:
+            return
+        self.assumed_ids.add(aid)
+        if n <= 64:
+            self.assume(z3.And([z3.And(z3.Select(a, i) >= rng[0], z3.Select(a, i) <= rng[1]) for i in range(n)]))
+        else:
+            k = z3.Int(fresh_name('k'))
+            self.assume(z3.ForAll([k], z3.And(z3.Select(a, k) >= rng[0], z3.Select(a, k) <= rng[1])))
 
     def slice_facts(self, v):
         b, o, l, c = v.lv[('b',)], v.lv[('o',)], v.lv[('l',)], v.lv[('c',)]
@@ -261,6 +303,9 @@ class State:
                 t = z3.Select(t, ix)
             lv[q] = t
             if facts:
+                for (hp, pre, F) in self.heap.frames.get(key, ()):
+                    self.assume(z3.Implies(loc.ref <= F, z3.Select(hp, loc.ref) == z3.Select(pre, loc.ref)))
+            if facts:
                 r = role
                 while r[0] == 'lift':
                     r = None
@@ -280,6 +325,8 @@ class State:
                 self.slice_facts(v)
             elif k == 'struct':
                 self.nested_facts(v)
+            elif k == 'array':
+                self.array_facts(v)
         return v
 
     def store(self, loc, val):
